@@ -29,6 +29,10 @@ type Scenario struct {
 	Options func(o *vrt.Options)
 	// Kind classifies a verdict into a violation kind (stable word used in signatures).
 	Kind func(verdict string) string
+	// Witness inspects the executed steps of a violating execution (trace labels of the chosen thread at
+	// every step: "T3:lock:inner<outer") and returns tags ("w:…") naming structural conditions that hold;
+	// they join the deviation sites in the signature.
+	Witness func(kind string, steps []Step) []string
 
 	base, params string
 }
@@ -205,6 +209,37 @@ func mergeViol(a, b []*Violation) []*Violation {
 	return a
 }
 
+// Step is one executed operation of a traced execution.
+type Step struct {
+	Thread int
+	Op     string
+	Site   string // inner<outer
+}
+
+var stepRe = regexp.MustCompile(`\*T(\d+):([a-z-]+):(\S*)`)
+
+// Steps extracts the executed operations from a trace.
+func Steps(trace []string) []Step {
+	var out []Step
+	for _, l := range trace {
+		if m := stepRe.FindStringSubmatch(l); m != nil {
+			var t int
+			fmt.Sscan(m[1], &t)
+			out = append(out, Step{Thread: t, Op: m[2], Site: m[3]})
+		}
+	}
+	return out
+}
+
+func (sc *Scenario) sites(v *Violation, tr *vrt.Result) {
+	for _, s := range tr.Sites {
+		v.Sites = append(v.Sites, deviationSite(s))
+	}
+	if sc.Witness != nil {
+		v.Sites = append(v.Sites, sc.Witness(v.Kind, Steps(tr.Trace))...)
+	}
+}
+
 // siteOf reduces a trace label of a deviation point to "kind@function" of what the preempted (or
 // early-fired, or data-choosing) party was about to do.
 var labelRe = regexp.MustCompile(`^\*?T\d+:([a-z-]+):(.*)$`)
@@ -228,7 +263,11 @@ func deviationSite(label string) string {
 		}
 	}
 	if m := labelRe.FindStringSubmatch(first); m != nil {
-		return m[1] + "@" + m[2]
+		site := m[2]
+		if i := strings.IndexByte(site, '<'); i >= 0 {
+			site = site[:i]
+		}
+		return m[1] + "@" + site
 	}
 	return first
 }
@@ -279,9 +318,7 @@ func runShard(t *task) *Stats {
 		if tr.Verdict != r.Verdict && sc.kind(tr.Verdict) != v.Kind {
 			v.Kind = "nondeterministic-" + v.Kind
 		}
-		for _, s := range tr.Sites {
-			v.Sites = append(v.Sites, deviationSite(s))
-		}
+		sc.sites(v, tr)
 		st.Violations = mergeViol(st.Violations, []*Violation{v})
 	}
 	e.Explore(t.Prefix, sc.Body)
@@ -476,9 +513,7 @@ func ExploreScenario(p *Pool, name, params string, bound int, deadline time.Time
 	for _, r := range rootViol {
 		tr := rp.Replay(r.Choices, sc.Body)
 		v := &Violation{Choices: r.Choices, Verdict: r.Verdict, Outcome: r.Outcome, Kind: sc.kind(r.Verdict), Count: 1}
-		for _, s := range tr.Sites {
-			v.Sites = append(v.Sites, deviationSite(s))
-		}
+		sc.sites(v, tr)
 		total.ViolExecs++
 		total.Violations = mergeViol(total.Violations, []*Violation{v})
 	}
